@@ -170,7 +170,7 @@ func (p *parser) finishStatement(stmt ast.Statement) ast.Statement {
 			),
 		)
 	}
-	tok := p.previous()
+	tok := *p.previous() // a copy: the token slice is parsed again for every instantiation of a generic function
 	tok.Type = token.WIEDERHOLE
 	p.consumeSeq(token.DOT)
 	return &ast.WhileStmt{
@@ -178,7 +178,7 @@ func (p *parser) finishStatement(stmt ast.Statement) ast.Statement {
 			Start: stmt.GetRange().Start,
 			End:   token.NewEndPos(p.previous()),
 		},
-		While:     *tok,
+		While:     tok,
 		Condition: count,
 		Body:      stmt,
 	}
